@@ -255,8 +255,15 @@ func compareWithModelX(env *Env, res *Result, cases []CorrCase, alt bool) []stri
 		} else {
 			res.count("class:trivial")
 		}
-		if alt && strings.HasPrefix(outs[i], "ORDER-DEPENDENT\t") && inAlternatives(outs[i], c.Impl) {
-			res.count("order-dependent-accepted")
+		if alt && strings.HasPrefix(outs[i], "ORDER-DEPENDENT\t") {
+			// the model says the result depends on a map iteration order: the implementation's result is
+			// one of possibly many (the driver samples the orders); it is not compared, the case is
+			// handed to the C03 oracle by the suites
+			if inAlternatives(outs[i], c.Impl) {
+				res.count("order-dependent-accepted")
+			} else {
+				res.count("order-dependent-outside-sampled-orders")
+			}
 			continue
 		}
 		if outs[i] != c.Impl {
